@@ -783,6 +783,71 @@ func kvfsRewrite(c *Ctx, what, whKind string) {
 	c.Distinct(op)
 }
 
+// kvfsFailThen: a pack is refused a write in the middle of a file body (the k-th kvfs write: disk full), in the same
+// process another fileset is then packed into a healthy warehouse; whatever now stands at a final address scans to the
+// id it is filed under (and to the id Pack answered). Recipe: "kvfs-failthen <tar|zip> <k>".
+func kvfsFailThen(c *Ctx, fmtName string, k int) {
+	caseCounter++
+	op := fmt.Sprintf("kvfs-failthen %s %d", fmtName, k)
+	base := filepath.Join(c.Work, fmt.Sprintf("kvft%d", caseCounter))
+	defer rmrf(base)
+	big, small, wh1, wh2 := filepath.Join(base, "big"), filepath.Join(base, "small"), filepath.Join(base, "wh1"), filepath.Join(base, "wh2")
+	for _, d := range []string{big, filepath.Join(small, "d"), wh1, wh2} {
+		os.MkdirAll(d, 0755)
+	}
+	os.Setenv("RIO_CACHE", filepath.Join(base, "cache"))
+	x := uint32(99 + k)
+	b := make([]byte, 600000) // incompressible: the body reaches the warehouse in many writes
+	for j := range b {
+		x = x*1664525 + 1013904223
+		b[j] = byte(x >> 24)
+	}
+	os.WriteFile(filepath.Join(big, "blob"), b, 0644)
+	os.WriteFile(filepath.Join(small, "a"), []byte("alpha\n"), 0644)
+	os.WriteFile(filepath.Join(small, "d", "b"), bytes.Repeat([]byte("beta"), 3000), 0644)
+	ctx := context.Background()
+	pf := api.MustParseFilesetPackFilter(losslessPackStr)
+	fn := funcsFor(fmtName)
+	n := 0
+	verifhook.Set(func(name string, detail []string) error {
+		if name == "kvfs.write" {
+			n++
+			if n == k {
+				return errors.New("injected fault: no space left on device")
+			}
+		}
+		return nil
+	})
+	_, ferr, fpan := safeCall(func() (api.WareID, error) {
+		return fn.pack(ctx, api.PackType(fmtName), big, pf, whAddr("ca", wh1), rio.Monitor{})
+	})
+	verifhook.Set(nil)
+	c.EmitR(op, "skip", "skip")
+	c.H("kvfs-failthen:" + fmtName + ":" + resTok(api.WareID{}, ferr, fpan))
+	if fpan != "" {
+		c.PropFail("kvfs-panic", "a pack refused a write panicked: "+fpan, op)
+		return
+	}
+	for rep := 0; rep < 2; rep++ {
+		id, err, pan := safeCall(func() (api.WareID, error) {
+			return fn.pack(ctx, api.PackType(fmtName), small, pf, whAddr("ca", wh2), rio.Monitor{})
+		})
+		if err != nil || pan != "" {
+			c.PropFail("ok-but-not-served", "after an earlier pack failed, an ordinary pack into a healthy warehouse answers "+resTok(id, err, pan), op)
+			return
+		}
+		final := storedWarePath("ca", wh2, id)
+		sid, e2, pan2 := safeCall(func() (api.WareID, error) {
+			return fn.scan(ctx, api.PackType(fmtName), api.MustParseFilesetUnpackFilter(losslessUnpackStr), rio.Placement_Direct, api.WarehouseLocation("file://"+final), rio.Monitor{})
+		})
+		if e2 != nil || pan2 != "" || sid != id {
+			c.PropFail("committed-wrong-id", fmt.Sprintf("after an earlier pack failed in the middle of a file body (%s), Pack answered %s and filed a ware at that address which scans to %s", resTok(api.WareID{}, ferr, ""), id, resTok(sid, e2, pan2)), op)
+			return
+		}
+	}
+	c.Distinct(op)
+}
+
 func kvfsEngine(c *Ctx) {
 	if ls := replayLines(); ls != nil {
 		for _, op := range ls {
@@ -806,6 +871,11 @@ func kvfsEngine(c *Ctx) {
 				n := 0
 				fmt.Sscan(f[3], &n)
 				kvfsOverlap(c, f[1], f[2], n)
+			} else if strings.HasPrefix(op, "kvfs-failthen ") {
+				f := strings.Fields(op)
+				k := 0
+				fmt.Sscan(f[2], &k)
+				kvfsFailThen(c, f[1], k)
 			} else if strings.HasPrefix(op, "kvfs-shrink ") {
 				f := strings.Fields(op)
 				kvfsShrink(c, f[1], f[2])
@@ -818,6 +888,11 @@ func kvfsEngine(c *Ctx) {
 	n := 6
 	if c.Tier == "thorough" {
 		n = 60
+	}
+	for _, fm := range []string{"tar", "zip"} {
+		for _, k := range []int{3, 9} {
+			kvfsFailThen(c, fm, k+c.Intn(3))
+		}
 	}
 	whats := []string{"pack-tar", "pack-zip", "mirror"}
 	for k := 0; k < n; k++ {
